@@ -13,6 +13,7 @@ PLAN = dict(
     assumptions=TRUSTED + ["A panic of cbor.Deterministic is a rejection (required by TestArraysNumberOfItemsIsWrong / TestMapsNumberOfItemsIsWrong and the byte-string test)",
                            "UTF-8 validity of text strings is outside RFC 8949 well-formedness and is not judged"],
     runs=[
+        dict(name="conc", run="^(TestConcGenerated|TestConcEncoderOutput)$", checks=(400, 20000), shards=(2, 8), timeout=(400, 3600), race=True),
         dict(name="short", run="^TestExhaustiveShort$", shards=(1, 16), timeout=(300, 900)),
         dict(name="enum", run="^(TestExhaustiveBoundary|TestExhaustiveInitialByte|TestExhaustiveBigArgs|TestShapeSweep|TestCorpus)$"),
         dict(name="gen", run="^TestPropGenerated$", checks=(100000, 250000), shards=(1, 8)),
